@@ -64,6 +64,19 @@ def fnum(s):
 
 # ------------------------------------------------------------------ implementation side
 
+def mk_keep(op):
+    """keep_fields argument in the container kind the op asks for (list / tuple / ndarray of str / str)"""
+    names = [fname(n) for n in op['keep']]
+    kind = op.get('keepkind', 'list')
+    if kind == 'tuple':
+        return tuple(names)
+    if kind == 'ndarray':
+        return np.array(names, dtype=str)
+    if kind == 'str' and len(names) == 1:
+        return names[0]
+    return names
+
+
 class Impl:
     """the real objects + an independent plain-table reference (rows = dicts)"""
 
@@ -90,7 +103,7 @@ class Impl:
                     self.args.append(('constructor column ' + fname(n), data[fname(n)], data[fname(n)].copy(), not op['copy']))
                 kw = {}
                 if op['keep'] is not None:
-                    kw['keep_fields'] = [fname(n) for n in op['keep']]
+                    kw['keep_fields'] = mk_keep(op)
                 if op['conv']:
                     kw['dtype_conversions'] = {np.dtype(DT[a]): np.dtype(DT[b]) for a, b in op['conv']}
                 if op['exc']:
@@ -123,7 +136,7 @@ class Impl:
                     kw['dtype_conversions'] = {np.dtype(DT[x]): np.dtype(DT[y]) for x, y in op['conv']}
                 if op['exc']:
                     kw['dtype_conversion_except_fields'] = [fname(n) for n in op['exc']]
-                keep = None if op['keep'] is None else [fname(n) for n in op['keep']]
+                keep = None if op['keep'] is None else mk_keep(op)
                 if op.get('copyflag') is None and not kw:
                     o = a.copy(keep_fields=keep)
                 else:
@@ -686,6 +699,32 @@ def rand_len(rng):
     return rng.choice([0, 0, 1, 1, 2, 2, 3, 3, 4, 5, 7, 8, 13, 20, 33, 50])
 
 
+def rand_keep(ctx, rng, present):
+    """keep_fields: None / empty / single / all / only unknown names / mixed, in every container kind"""
+    r = rng.random()
+    absent = [n for n in range(8) if n not in present]
+    if r < 0.4:
+        ctx.count('keep:None')
+        return None, 'list'
+    kind = rng.choice(['list', 'list', 'tuple', 'ndarray'])
+    if r < 0.52 or not present:
+        ctx.count('keep:empty-' + kind)
+        return [], kind
+    if r < 0.64:
+        ctx.count('keep:single')
+        return [rng.choice(present)], rng.choice([kind, 'str'])
+    if r < 0.74:
+        ctx.count('keep:all')
+        ks = list(present)
+        rng.shuffle(ks)
+        return ks, kind
+    if r < 0.82 and absent:
+        ctx.count('keep:unknown-only')
+        return rng.sample(absent, rng.randint(1, min(2, len(absent)))), kind
+    ctx.count('keep:mixed')
+    return rng.sample(range(8), rng.randint(1, 4)), kind
+
+
 def rand_conv(rng):
     r = rng.random()
     if r < 0.4:
@@ -734,16 +773,16 @@ def gen_random_op(ctx, rng, impl, malformed_p):
             j = rng.randrange(nf)
             m = rng.choice([1, n + 1, max(0, n - 1), 0])
             cols[j] = (cols[j][0], (cols[j][1][0], rand_vals(rng, m)))
-        keep = None if rng.random() < 0.6 else rng.sample(range(8), rng.randint(1, 4))
+        keep, kk = rand_keep(ctx, rng, names)
         conv = rand_conv(rng) if rng.random() < 0.4 else []
         exc = rng.sample(names, rng.randint(0, 1)) if conv else []
-        return {'op': 'ctor', 'cols': cols, 'keep': keep, 'conv': conv, 'exc': exc, 'copy': rng.random() < 0.5}
+        return {'op': 'ctor', 'cols': cols, 'keep': keep, 'keepkind': kk, 'conv': conv, 'exc': exc, 'copy': rng.random() < 0.5}
     if kind == 'from':
         s = pick()
-        keep = None if rng.random() < 0.5 else rng.sample(range(8), rng.randint(1, 4))
+        keep, kk = rand_keep(ctx, rng, names_of(s))
         conv = rand_conv(rng) if rng.random() < 0.3 else []
         exc = rng.sample(range(8), 1) if conv and rng.random() < 0.5 else []
-        return {'op': 'from', 'src': s, 'keep': keep, 'conv': conv, 'exc': exc, 'copyflag': rng.choice([None, True, False])}
+        return {'op': 'from', 'src': s, 'keep': keep, 'keepkind': kk, 'conv': conv, 'exc': exc, 'copyflag': rng.choice([None, True, False])}
     if kind == 'select':
         s = pick()
         return {'op': 'select', 'src': s, 'sel': rand_sel(rng, len(objs[s]), None, bad, ctx), 'via_getitem': rng.random() < 0.3}
@@ -892,6 +931,10 @@ def alphabet(full):
         'sort': lambda im: {'op': 'sort', 't': 0, 'name': fnum(im.objs[0].field_name_list[-1]) if im.objs[0].field_name_list else 0},
         'copy': lambda im: ({'op': 'from', 'src': 0, 'keep': None, 'conv': [], 'exc': []} if len(im.objs) < MAXOBJ else None),
         'indices': lambda im: {'op': 'indices', 't': 0},
+        'copyempty': lambda im: ({'op': 'from', 'src': 0, 'keep': [], 'keepkind': 'tuple', 'conv': [], 'exc': []}
+                                 if len(im.objs) < MAXOBJ else None),
+        'copyone': lambda im: ({'op': 'from', 'src': 0, 'keep': [fnum(n) for n in im.objs[0].field_name_list[:1]],
+                                'keepkind': 'ndarray', 'conv': [], 'exc': []} if len(im.objs) < MAXOBJ else None),
         'setselL0': lambda im: {'op': 'setsel', 't': last(im), 'src': 0,
                                 'sel': ('mask', [i < n0(im) for i in range(len(im.objs[last(im)]))])},
     }
@@ -969,6 +1012,16 @@ def corpus():
          {'op': 'select', 'src': 0, 'sel': ('idx', [4, 3, 2])}, {'op': 'select', 'src': 0, 'sel': ('idx', [0, 2, 4])},
          {'op': 'select', 'src': 0, 'sel': ('mask', [True] * 6)}, {'op': 'select', 'src': 0, 'sel': ('mask', [False] * 6)},
          {'op': 'setsel', 't': 1, 'src': 2, 'sel': ('idx', [0, 1, 2])}, {'op': 'setsel', 't': 0, 'src': 1, 'sel': ('idx', [1, 2, 3])}],
+        # keep_fields: empty list / tuple / ndarray keep NOTHING, None keeps all, unknown names are ignored
+        [two, {'op': 'from', 'src': 0, 'keep': [], 'keepkind': 'list', 'conv': [], 'exc': []},
+         {'op': 'from', 'src': 0, 'keep': [], 'keepkind': 'tuple', 'conv': [], 'exc': []},
+         {'op': 'from', 'src': 0, 'keep': [], 'keepkind': 'ndarray', 'conv': [(0, 2)], 'exc': [], 'copyflag': False},
+         {'op': 'from', 'src': 0, 'keep': [1], 'keepkind': 'str', 'conv': [], 'exc': []}],
+        [{'op': 'ctor', 'cols': [(0, (0, [1, 2])), (1, (3, [3, 4]))], 'keep': [], 'keepkind': 'list', 'conv': [], 'exc': [], 'copy': True},
+         {'op': 'ctor', 'cols': [(0, (0, [1, 2])), (1, (3, [3, 4]))], 'keep': [], 'keepkind': 'ndarray', 'conv': [], 'exc': [], 'copy': False},
+         {'op': 'ctor', 'cols': [(0, (0, [1, 2])), (1, (3, [3, 4]))], 'keep': [5, 6], 'keepkind': 'tuple', 'conv': [], 'exc': [], 'copy': True},
+         {'op': 'ctor', 'cols': [(0, (0, [1, 2])), (1, (3, [3, 4]))], 'keep': [1, 0], 'keepkind': 'ndarray', 'conv': [(3, 1), (1, 0)], 'exc': [], 'copy': False},
+         {'op': 'append', 't': 0, 'src': 3}, {'op': 'append_field', 't': 0, 'name': 4, 'buf': (1, [])}],
         # sort + append + indices, selection written back
         [two, {'op': 'indices', 't': 0}, {'op': 'sort', 't': 0, 'name': 0}, {'op': 'append', 't': 0, 'src': 0},
          {'op': 'indices', 't': 0}, {'op': 'select', 'src': 0, 'sel': ('idx', [5, 0])},
@@ -1016,7 +1069,7 @@ def run(ctx):
         ctx.count('corpus_sequences')
     # bounded-exhaustive
     base = ['append01', 'addcol', 'remove0', 'rename13', 'select', 'setsel0L', 'sort', 'copy', 'indices', 'setselL0',
-            'selblock', 'selmask']
+            'selblock', 'selmask', 'copyempty', 'copyone']
     if ctx.thorough():
         seqs += exhaustive(ctx, DFRA, base + ['tidy', 'convert', 'append10', 'setitem1'], 4, False)
         seqs += exhaustive(ctx, DFRA, ['append01', 'addcol', 'remove0', 'rename13', 'select', 'setsel0L', 'sort', 'copy'], 5, True)
@@ -1024,6 +1077,7 @@ def run(ctx):
     else:
         seqs += exhaustive(ctx, DFRA, ['append01', 'addcol', 'remove0', 'rename13', 'selblock', 'setsel0L', 'sort'], 4, False)
         seqs += exhaustive(ctx, DFRA, ['select', 'selblock', 'selmask', 'setsel0L', 'setselL0', 'append01', 'indices'], 3, False)
+        seqs += exhaustive(ctx, DFRA, ['copyempty', 'copyone', 'copy', 'remove0', 'rename13', 'addcol', 'append01'], 3, False)
         seqs += exhaustive(ctx, DFRA, base + ['tidy', 'convert', 'append10', 'setitem1'], 2, False)
     # random
     nrand = ctx.budget(120, 1200)
